@@ -29,7 +29,7 @@ MANIFEST = {
             "FOR NOBODY ELSE (converse of recovery; secp256k1/secp256r1, where #E = n and p <= 2n are proved): a reduced curve point Q verifies "
             "(z, r, s) IF AND ONLY IF 1 <= r,s < n and Q is among possible_public_pairs_for_signature(z, (r, s)) or among "
             "possible_public_pairs_for_signature(z, (r + n, s)) (C01_verifying_keys_secp256k1/_secp256r1; in the group: Q = r^-1(s*R - z*G) for a "
-            "point R with x(R) mod n = r, C01_verifying_keys_group); recovery as Generator users call it looks at the abscissa r only, so a key "
+            "point R with x(R) mod n = r, C01_verifying_keys_group_partial); recovery as Generator users call it looks at the abscissa r only, so a key "
             "whose nonce point has x(R) = r + n verifies and is not returned (it is for r >= p - n: C01_verifying_keys_eq_recovered_*); any "
             "verifying key with x(R) < n is returned (C01_recover_complete_of_verify_*); at most four keys verify one (z, r, s) "
             "(C01_verifying_keys_finite_*) and at most four residue classes of z verify under one key and (r, s) "
@@ -252,6 +252,18 @@ def _ctor_pub(tok, ctor):
     if q[0] == "pair":
         P = parse_pt(q[1])
         return q[1] if P != (None, None) and on_curve(tok, P) and cc.reduced(tok, P) else None
+    if q[0] == "sec":
+        b = _hexb(q[1])
+        p = consts(tok)[0]
+        if len(b) == 65 and b[0] == 4:
+            P = (int.from_bytes(b[1:33], "big"), int.from_bytes(b[33:], "big"))
+            return show_pt(P) if on_curve(tok, P) and cc.reduced(tok, P) else None
+        if len(b) == 33 and b[0] in (2, 3) and int.from_bytes(b[1:], "big") < p:
+            ans = cc.impl("ec_points_for_x %s %d" % (tok, int.from_bytes(b[1:], "big")))
+            if ans.startswith("ok "):
+                for P in ans[3:].split(" "):
+                    if parse_pt(P)[1] & 1 == b[0] & 1:
+                        return P
     return None
 
 
@@ -481,11 +493,11 @@ def _oracle(op: str, out: str):
             elif q[0] == "p":
                 if o != "pub":
                     return "public_copy raised: " + o
-                cur = "pair:%s:%s" % (Q, cur.split(":")[2] if cur.split(":")[0] != "sec" else "1")
+                cur = "pair:%s:%s" % (Q, cur.split(":")[2] if cur.split(":")[0] != "sec" else ("1" if len(cur) < 80 else "0"))
             elif q[0] == "c":
                 if o != "sec":
                     return "Key.from_sec(key.sec()) raised: " + o
-                cur = "pair:%s:%s" % (Q, cur.split(":")[2] if cur.split(":")[0] != "sec" else "1")
+                cur = "pair:%s:%s" % (Q, cur.split(":")[2] if cur.split(":")[0] != "sec" else ("1" if len(cur) < 80 else "0"))
         return _cross(op, out)
     if k == "toy_keys":
         tok = a[1]
@@ -687,7 +699,7 @@ def gen(ctx, emit):
                 # class; secp256r1: Key.make_subclass over that generator.  The oracle of every one of these ops evaluates the op in
                 # the OTHER arithmetic configuration too (_cross), so the full lists are emitted under the OpenSSL token only (one
                 # model evaluation, both implementations) and a sample under the pure token.
-                full = (cfg == "openssl") or ctx.thorough
+                full = cfg == "openssl"
                 k1 = name == "secp256k1"
                 h0 = _h32(z0)
                 kd, kq = "d:%d:1" % d0, "pair:%s:1" % Q
@@ -790,11 +802,12 @@ def gen(ctx, emit):
             for r in (1, 2, 3, 4, 5, 6, 7):
                 emit("recover %s 1 %d 1 ~" % (tok, r))
             # ---- random stream
-            for _ in range(ctx.n(2, 140)):
+            for it in range(ctx.n(2, 140)):
+                keyder = cfg == "openssl" and (not ctx.thorough or it % 3 == 0)
                 d = rng.choice([rng.randrange(1, n), rng.randrange(1, n), rng.randrange(1, 2 ** 64), n - rng.randrange(1, 1000)])
                 z = rng.choice([rng.randrange(1, two256), rng.randrange(1, two256), rng.randrange(1, n), rng.getrandbits(rng.randrange(1, 257)) or 1])
                 emit("sign %s %d %d" % (tok, d, z))
-                if z < two256 and (cfg == "openssl" or ctx.thorough):
+                if z < two256 and keyder:
                     emit("keysign_der %s d:%d:%d %s" % (tok, d, rng.randrange(2), _h32(z)), "key-der")
                 bit = 1 << rng.randrange(256)
                 emit("rfc6979 %s %d %d" % (tok, d, z))
@@ -806,7 +819,7 @@ def gen(ctx, emit):
                 r, s, rid = (int(v) for v in so[3:].split(" "))
                 Q = cc.impl("ec_mul %s %d,%d %d" % (tok, gx, gy, d))[3:]
                 mode = rng.randrange(8)
-                if z < two256 and (cfg == "openssl" or ctx.thorough):
+                if z < two256 and keyder:
                     mm = _der_mutations(rng, r, s, n)
                     for m in [mm[0], rng.choice(mm[1:])] + ([rng.choice(mm[1:])] if ctx.thorough else []):
                         emit("keyverify_der %s pair:%s:1 %s %s" % (tok, Q, _h32(z), m.hex() or "-"), "key-der")
